@@ -403,18 +403,30 @@ def si_table(docs):
         raise ExtractError("formatSI: n is not static_cast<double>(s)")
     rows = []
     for cond, call in cascade(fn):
-        thr = None
+        thr, on_double = None, False
         if cond is not None:
             c = strip(cond)
+            if c.get("kind") != "BinaryOperator" or c.get("opcode") != "<":
+                raise ExtractError("formatSI: branch condition is not a `<` comparison")
             l, r = [strip(x) for x in kids(c)]
-            if c.get("opcode") != "<" or ref_name(l) != "s" or r.get("kind") != "IntegerLiteral":
-                raise ExtractError("formatSI: branch condition is not `s < literal`")
-            thr = int(r["value"])
+            if ref_name(l) == "s" and "double" not in ctype(l) and r.get("kind") == "IntegerLiteral":
+                # `s < literal`: both operands are 64-bit integers, the comparison is exact
+                thr = int(r["value"])
+            elif ref_name(l) == "n" and ctype(l) == "double" and r.get("kind") == "FloatingLiteral":
+                # `n < literal.0`: the *converted* value (double) is compared with a double constant
+                f = float_value(r, {})
+                if f.denominator != 1 or f < 0:
+                    raise ExtractError("formatSI: double threshold %s is not a non-negative integer" % f)
+                thr, on_double = f.numerator, True
+            else:
+                raise ExtractError("formatSI: branch condition is neither `s < integer literal` nor `n < double literal`")
         fmt, args = snprintf_args(call, "formatSI")
         if fmt in ("%ld", "%lld"):
             if len(args) != 1 or ref_name(args[0]) != "s":
                 raise ExtractError("formatSI: integer branch does not print s")
-            rows.append((thr, None, None, b""))
+            if on_double:
+                raise ExtractError("formatSI: the integer branch is selected on the converted value")
+            rows.append((thr, None, None, b"", False))
             continue
         m = FMT.match(fmt)
         if not m or len(args) != 1:
@@ -423,7 +435,7 @@ def si_table(docs):
         if d.get("kind") != "BinaryOperator" or d.get("opcode") != "/" or ref_name(kids(d)[0]) != "n":
             raise ExtractError("formatSI: argument is not n / constant")
         div = float_value(kids(d)[1], {})
-        rows.append((thr, int(m.group(1)), pow_exp(div, 10), m.group(2).encode()))
+        rows.append((thr, int(m.group(1)), pow_exp(div, 10), m.group(2).encode(), on_double))
     return rows
 
 
@@ -788,9 +800,10 @@ def generate():
     if si[0][1] is not None or si[0][0] is None or si[-1][0] is not None or any(r[1] is None for r in si[1:]):
         raise ExtractError("formatSI: unexpected branch order")
     out.append("/-- `formatSI`: `s < siIntBelow` prints the integer itself -/\ndef siIntBelow : Nat := %d\n" % si[0][0])
-    out.append("/-- `formatSI`: (upper bound `s < …`, digits after the point, exponent of the power of ten `n` is divided by, unit) -/")
-    out.append("def siTable : List (Nat × Nat × Nat × List Nat) := [\n%s]\n" % ",\n".join(
-        "  (%d, %d, %d, %s)" % (r[0], r[1], r[2], lean_bytes(r[3])) for r in si[1:-1]))
+    out.append("/-- `formatSI`: (the branch compares the converted value `n = (double) s` (true) or the integer `s` itself "
+               "(false), upper bound `… < bound`, digits after the point, exponent of the power of ten `n` is divided by, unit) -/")
+    out.append("def siTable : List (Bool × Nat × Nat × Nat × List Nat) := [\n%s]\n" % ",\n".join(
+        "  (%s, %d, %d, %d, %s)" % ("true" if r[4] else "false", r[0], r[1], r[2], lean_bytes(r[3])) for r in si[1:-1]))
     out.append("/-- `formatSI`: the final `else` -/\ndef siLast : Nat × Nat × List Nat := (%d, %d, %s)\n"
                % (si[-1][1], si[-1][2], lean_bytes(si[-1][3])))
     iec = iec_table(ls)
